@@ -93,26 +93,28 @@ def add_months(d, n):
 
 
 def model_days_as_months(d, n_days, sign):
-    """Defect model: a span of days is re-read as 365-day years and 30-day months, then the
-    calendar month/year is moved by those counts (what DateItem::calculate does)."""
+    """Defect model: a span of days is re-read as 365-day years and 30-day months, the calendar
+    month/year is moved by those counts in one step (a month difference without year borrow),
+    then the remaining days are added (what DateItem::calculate does).
+    -> date | 'no-such-day' (the shifted month has no such day: the implementation declines) | None"""
     years, rem = divmod(n_days, 365)
     months, days = divmod(rem, 30)
     try:
-        cur = d
-        if years:
-            cur = cur.replace(year=cur.year + sign * years)
-        if months:
+        if years or months:
             if sign > 0:
-                total = cur.month + months
-                y = cur.year + total // 12
-                m = total % 12
-                cur = datetime.date(y, m, cur.day)
+                total = d.year * 12 + (d.month - 1) + years * 12 + months
+                y, m = divmod(total, 12)
+                m += 1
             else:
-                y = cur.year - months // 12
-                m = cur.month - months % 12
-                if m < 0:
+                y = d.year - years - months // 12
+                m = d.month - months % 12
+                if m <= 0:
                     m += 12
-                cur = datetime.date(y, m, cur.day)
+            if d.day > calendar.monthrange(y, m)[1]:
+                return 'no-such-day'
+            cur = datetime.date(y, m, d.day)
+        else:
+            cur = d
         return cur + datetime.timedelta(days=sign * days)
     except Exception:
         return None
@@ -233,6 +235,9 @@ def run_shard(ctx):
                     problem = 'expected the date %s, got %s' % (want, mon.describe(slot))
                     if k == 'abnormal':
                         sig += ':abnormal'
+                    elif k == 'err' and len(exp) > 3 and exp[3] is not None and exp[3] >= 30 and model_days_as_months(exp[2], exp[3], exp[4]) == 'no-such-day':
+                        # same defect: the span was re-read as months, and the shifted month has no such day
+                        sig = 'date:span-of-days-reread-as-months-and-years'
                 else:
                     got = mon.parse_date(slot['v']['d'])
                     if got != want:
